@@ -172,6 +172,32 @@ def build(tier):
         ("serde_json::Number", ["serde_json::Number::from(1)", "serde_json::Number::from_f64(1.5).unwrap()"], []),
         ("serde_json::Map<String, serde_json::Value>", ["serde_json::Map::new()", '{ let mut m = serde_json::Map::new(); m.insert("k".into(), serde_json::json!([1])); m }'], ["JsonValue"]),
     ]
+    # ---- systematic compositions: every word of length 3 over the constructor alphabet applied to a leaf
+    # (quick: leaf i32 / thorough: also a declared struct), with values built compositionally so that the
+    # "empty" answer of every layer (None, [], {}, Err, a dead Weak) occurs under every other layer
+    ctors = {
+        "option": (lambda t: f"Option<{t}>", lambda v: ["None", f"Some({v[0]})", f"Some({v[-1]})"]),
+        "vec": (lambda t: f"Vec<{t}>", lambda v: ["vec![]", f"vec![{v[0]}, {v[-1]}]"]),
+        "box": (lambda t: f"Box<{t}>", lambda v: [f"Box::new({v[0]})", f"Box::new({v[-1]})"]),
+        "array": (lambda t: f"[{t}; 2]", lambda v: [f"[{v[0]}, {v[-1]}]"]),
+        "map": (lambda t: f"BTreeMap<String, {t}>", lambda v: ["BTreeMap::new()", f'[("k".to_string(), {v[0]}), ("l".to_string(), {v[-1]})].into_iter().collect()']),
+        "tuple": (lambda t: f"({t}, bool)", lambda v: [f"({v[0]}, true)", f"({v[-1]}, false)"]),
+        "result": (lambda t: f"Result<{t}, String>", lambda v: [f"Ok({v[0]})", f"Ok({v[-1]})", 'Err("e".to_string())']),
+        "weak": (lambda t: f"std::sync::Weak<{t}>", lambda v: ["std::sync::Weak::new()", f"{{ let a = std::sync::Arc::new({v[-1]}); let w = std::sync::Arc::downgrade(&a); std::mem::forget(a); w }}"]),
+    }
+    leaves = [("i32", ["1", "-1"], [])] + ([] if tier == "quick" else [("St", [ST], ["St"])])
+    import itertools as _it
+    for word in _it.product(ctors, repeat=3):
+        if word.count("weak") > 1:
+            continue
+        for lt, lv, ldeps in leaves:
+            ty, vals = lt, lv
+            for c in reversed(word):
+                mk, mv = ctors[c]
+                ty, vals = mk(ty), mv(vals)
+            c = vcase("composition-3", ty, vals, deps=ldeps, deser=("weak" not in word))
+            c.klass["word"] = list(word)
+            out.append(c)
     for ty, vals, deps in comps:
         c = vcase("composition", ty, vals, deps=deps, deser=("Rc<" not in ty and "Arc<" not in ty))
         if "serde_json" in ty:
